@@ -541,8 +541,18 @@ func c10ForkModelCase(c *Ctx, rt *core.Runtime, cs *fmCase, static, runtime stri
 	// determined (no `u`, no `e`), it must be a duplicate-free enumeration of exactly the
 	// combinations the sources define (Lean allForks)
 	if !strings.Contains(static, "u") && !strings.Contains(static, "e") && static != "." {
-		if rep := c.Drv.AskBatch([][]string{{"C10.forkbij", cs.Roots, cs.Table}})[0]; rep == "true" {
-			r.hist("fork-model-outcome:bijection instance holds")
+		rep := c.Drv.AskBatch([][]string{{"C10.forkbij", cs.Roots, cs.Table}})[0]
+		// reply: <hypothesis knownWhereNeeded of forks_bijection_where_known> <conclusion>
+		if strings.HasPrefix(rep, "true ") {
+			r.hist("fork-model-outcome:bijection hypothesis (knownWhereNeeded) holds for the table")
+		} else {
+			r.hist("fork-model-outcome:bijection hypothesis does not hold for the table")
+		}
+		if rep == "true true" || rep == "false true" {
+			r.hist("fork-model-outcome:bijection conclusion holds")
+		}
+		if rep == "true true" || strings.HasPrefix(rep, "false ") {
+			// with the hypothesis the theorem promises the conclusion; without it nothing is claimed
 		} else {
 			r.violate(Violation{Kind: "correspondence", Key: "C10:forkorder:bijection:" + cs.Shape,
 				What:  "the fully determined fork list is not a duplicate-free enumeration of the combinations the sources define",
